@@ -18,6 +18,7 @@ from __future__ import annotations
 import bisect
 import dataclasses
 import pickle
+import tracemalloc
 from typing import IO, Any, Callable
 
 from easynetwork.exceptions import DeserializeError
@@ -154,13 +155,22 @@ def _draw_size(world: World, lo: int, hi: int) -> int:
 
 
 def _draw_shape(world: World) -> tuple[int, int]:
-    """(number of complete frames, tail class): 0 none, 1 short (<= safe), 2 band, 3 beyond the bound"""
+    """(max number of complete frames, tail class): 0 none, 1 short (<= safe), 2 band, 3 beyond the bound"""
     mode = world.choose("workload", 3)
     if mode == 0:  # converse workload only
-        return 1 + world.choose("nframes", 6), 0
+        return 6, 0
     if mode == 1:  # slow loris only
         return 0, 1 + world.choose("tail_class", 3)
-    return 1 + world.choose("nframes", 6), 1 + world.choose("tail_class", 3)
+    return 6, 1 + world.choose("tail_class", 3)
+
+
+def _more_frames(world: World, have: int, max_frames: int) -> bool:
+    """1..max_frames frames, drawn as a stop/continue flag per frame (0 = stop): the minimiser can delete one frame's choices"""
+    if have >= max_frames:
+        return False
+    if have == 0:
+        return True
+    return world.choose("more_frames", 4) > 0
 
 
 def _tail_len(world: World, tail_class: int, limit: int, seplen: int, safe: int) -> int:
@@ -193,7 +203,6 @@ _SEPS = [b"\n", b"\r\n", b"<>!", b"|", b"::", b"aab", b"\x00", b"\x00\x00\x01"]
 
 def _gen_sep(world: World) -> Case:
     variant = world.pick("variant", ["autosep", "line"])
-    rng = None
     if variant == "autosep":
         sep = world.pick("separator", _SEPS)
     else:
@@ -219,13 +228,12 @@ def _gen_sep(world: World) -> Case:
         return bytes(p)
 
     frames = []
-    for _ in range(nframes):
+    while _more_frames(world, len(frames), nframes):
         if safe < seplen:
             break
         size = _draw_size(world, seplen, safe)
         frames.append(payload(size - seplen) + sep)
     tail = payload(_tail_len(world, tail_class, limit, seplen, max(0, safe - seplen)))
-    # a tail must not end with a proper prefix that the *next* bytes could complete: there are no next bytes. fine.
     if variant == "autosep":
 
         def make():
@@ -281,7 +289,7 @@ def _gen_jsonl(world: World) -> Case:
     nframes, tail_class = _draw_shape(world)
     rng = world.sub_rng("filler")
     frames = []
-    for _ in range(nframes):
+    while _more_frames(world, len(frames), nframes):
         size = _draw_size(world, 3, safe)
         frames.append(_json_doc(rng, size - 1, plain_ok=False) + b"\n")
     tail = _json_tail(rng, _tail_len(world, tail_class, limit, 1, max(0, safe - 1)), raw=False)
@@ -298,7 +306,7 @@ def _gen_jsonraw(world: World) -> Case:
     nframes, tail_class = _draw_shape(world)
     rng = world.sub_rng("filler")
     frames = []
-    for _ in range(nframes):
+    while _more_frames(world, len(frames), nframes):
         size = _draw_size(world, 2, safe)
         frames.append(_json_doc(rng, size, plain_ok=True))
     tail = _json_tail(rng, _tail_len(world, tail_class, limit, 0, safe), raw=True)
@@ -329,7 +337,7 @@ def _gen_filebased(world: World) -> Case:
     safe = limit - 2
     nframes, tail_class = _draw_shape(world)
     frames = []
-    for _ in range(nframes):
+    while _more_frames(world, len(frames), nframes):
         frames.append(_pickle_frame(_draw_size(world, 5, safe)))
     n = _tail_len(world, tail_class, limit, 0, safe)
     tail = pickle.dumps("y" * (n + 16), protocol=2)[:n]
@@ -421,6 +429,27 @@ def _cap_reads(chunks: list[bytes], ends: list[int], limit: int) -> list[bytes]:
 
 # =================================================================================================== harness
 def run_case(world: World, family: str, path: str) -> None:
+    """one simulated execution; one run in 64 (a pure function of the seed) also records the tracemalloc peak as a metric"""
+    sample = world.seed % 64 == 0 and not tracemalloc.is_tracing()
+    if sample:
+        tracemalloc.start()
+    try:
+        _run_case(world, family, path)
+    finally:
+        if sample:
+            peak = tracemalloc.get_traced_memory()[1]
+            tracemalloc.stop()
+            world.counters["tracemalloc_sampled_runs"] += 1
+            world.counters["tracemalloc_peak_bytes_sum"] += peak
+
+
+def evidence_extra(merged: dict) -> dict:
+    n = merged["counters"].get("tracemalloc_sampled_runs", 0)
+    total = merged["counters"].get("tracemalloc_peak_bytes_sum", 0)
+    return {"tracemalloc_mean_peak_bytes_per_sampled_run": (total // n) if n else None, "tracemalloc_sampled_runs": n}
+
+
+def _run_case(world: World, family: str, path: str) -> None:
     case = GENERATORS[family](world)
     limit, seplen = case.limit, case.seplen
     stream = b"".join(case.frames) + case.tail
